@@ -27,14 +27,12 @@ Fixpoint fs_paths (s : schema) (tr : typeref) (prefix : path) (v : value) {struc
                     match l with
                     | [] => (dups, acc, err)
                     | child :: rest =>
-                        match list_item_to_pe s t child with
-                        | None => pass1 rest seen dups acc true
-                        | Some e =>
-                            if pes_has e seen then
-                              if pes_has e dups then pass1 rest seen dups acc err
-                              else pass1 rest seen (pes_insert e dups) (acc ++ [prefix ++ [e]]) err
-                            else pass1 rest (pes_insert e seen) dups acc err
-                        end
+                        (* the error of listItemToPathElement is ignored (tofieldset.go:103) *)
+                        let e := list_item_pe_or_zero s t child in
+                        if pes_has e seen then
+                          if pes_has e dups then pass1 rest seen dups acc err
+                          else pass1 rest seen (pes_insert e dups) (acc ++ [prefix ++ [e]]) err
+                        else pass1 rest (pes_insert e seen) dups acc err
                     end in
                 let '(dups, acc1, err1) := pass1 l [] [] [] false in
                 (* second pass: descend into the items that are not duplicated *)
@@ -44,14 +42,11 @@ Fixpoint fs_paths (s : schema) (tr : typeref) (prefix : path) (v : value) {struc
                      | [] => (false, [])
                      | child :: rest =>
                          let '(e2, r) := pass2 rest in
-                         match list_item_to_pe s t child with
-                         | None => (true, r)
-                         | Some e =>
-                             if pes_has e dups then (e2, r)
-                             else
-                               let '(e1, sub) := fs_paths s (list_elem t) (prefix ++ [e]) child in
-                               (e1 || e2, sub ++ [prefix ++ [e]] ++ r)
-                         end
+                         let e := list_item_pe_or_zero s t child in
+                         if pes_has e dups then (e2, r)
+                         else
+                           let '(e1, sub) := fs_paths s (list_elem t) (prefix ++ [e]) child in
+                           (e1 || e2, sub ++ [prefix ++ [e]] ++ r)
                      end) l in
                 (err1 || e2, acc1 ++ r2)
             | _ => (false, [])
